@@ -11,15 +11,15 @@ HAS_HASH = 'yarel::value::Value::has_hash'
 
 def run(rep):
     w = rep.world('dev')
-    h1(rep, w)
-    h2(rep, w)
-    h3(rep, w)
-    h4(rep, w)
-    h5(rep, w)
-    h6(rep, w)
-    h7(rep, w)
+    rep.guard(h1, rep, w)
+    rep.guard(h2, rep, w)
+    rep.guard(h3, rep, w)
+    rep.guard(h4, rep, w)
+    rep.guard(h5, rep, w)
+    rep.guard(h6, rep, w)
+    rep.guard(h7, rep, w)
     import c02
-    c02.p8(rep, w)     # the tuple lock shared by Display and has_hash: left set, an unhashable tuple is accepted as a key (and panics in Hash)
+    rep.guard(c02.p8, rep, w)     # the tuple lock shared by Display and has_hash: left set, an unhashable tuple is accepted as a key (and panics in Hash)
 
 
 def discr_switches(f, adt_path):
